@@ -28,27 +28,31 @@
               was accessed after fiber_destroy() handed the target to free()
      jod      a join exchanged WAIT_TO_JOIN over DETACHED
 
-   Four statements of the property are FALSE of the code (findings F-C04a..d,
-   each replayed on the real code: corpus/C04.txt); they are proved as
-   `_refuted` with vm_compute witnesses, next to the `_partial` theorems whose
-   hypotheses exclude exactly those histories.                              *)
+   The model has a boolean parameter (first argument of [iinit]/[ireach], field
+   [fxd]): true = the current code, with the repair 4ff1f32 of F-C04a
+   (fiber_detach marks the joiner it wakes with FIBER_JOIN_DETACHED and the
+   woken fiber_join returns FIBER_ERROR); false = the code before it.  Every
+   theorem is about the current code ([ireach true]) except
+   join_success_before_finish_prefix_refuted, the regression witness of F-C04a.
+
+   Statements of the property that are FALSE of the current code (findings
+   F-C04b..e, each replayed on the real code: corpus/C04.txt) are proved as
+   `_refuted` with vm_compute witnesses, next to the theorems whose hypotheses
+   exclude exactly those histories.                                          *)
 From Coq Require Import List ZArith Bool.
 From LF Require Import Conc T1K Join JoinInv JoinProofs.
 Import ListNotations.
 Local Open Scope Z_scope.
 
 (* ---- join_success_after_finish_with_value --------------------------------
-   FULL STATEMENT (false): every join/tryjoin that returns SUCCESS returns after
-   the target executed its result store, with exactly that value:
-     forall g progs x, ireach g progs x ->
-       forall t v f, In (t, v, f) (gsucc (gh x)) -> f = Some v.
-   F-C04a: a joiner blocked in fiber_join, another fiber detaches, the join
+   REGRESSION (F-C04a, repaired by 4ff1f32): on the model of the code BEFORE the
+   repair a joiner blocked in fiber_join, woken by another fiber's detach,
    returns SUCCESS with NULL while the target has not called mark_completed
    (its program has not even started). *)
-Theorem join_success_before_finish_refuted :
+Theorem join_success_before_finish_prefix_refuted :
   exists g progs sch,
-    let x := irun (iinit g progs) sch in
-    ireach g progs x /\
+    let x := irun (iinit false g progs) sch in
+    ireach false g progs x /\
     In (1%nat, 0, None) (gsucc (gh x)) /\        (* fiber 1's join returned SUCCESS / NULL ... *)
     gfin (gh x) = None /\                        (* ... the target has not stored its result *)
     stk (base x) 0%nat = [Start; FC (JNext [JFinish 7] 1)] /\   (* (it has not run at all) *)
@@ -58,25 +62,24 @@ Proof.
   pose proof witness_a as W. cbv zeta in W. destruct W as [A [B [C [D E]]]].
   rewrite A. repeat split; auto. now left.
 Qed.
-Print Assumptions join_success_before_finish_refuted.
+Print Assumptions join_success_before_finish_prefix_refuted.
 
-(* PARTIAL (proved): in runs in which no detach exchanges detach_state while a
-   joiner is registered (dwr = false) and no second join/tryjoin slips in
-   between the finishing target's exchange and its pick-up of a registered
-   joiner (jwr = false; see join_two_successes_refuted for why this second
-   hypothesis is needed), every join/tryjoin that returned SUCCESS returned
-   after the target's result store and reported exactly the stored value.
-   Missing w.r.t. the full statement: exactly the histories with dwr or jwr. *)
-Theorem join_success_after_finish_with_value_partial :
-  forall g progs x, ireach g progs x ->
-    dwr (gh x) = false -> jwr (gh x) = false ->
+(* CURRENT CODE (proved).  Hypothesis: jwr = false, i.e. no join/tryjoin exchange
+   returned WAIT_FOR_JOINER while a joiner was registered - this excludes exactly
+   F-C04c (join_two_successes_refuted below shows the statement is false without
+   it).  Detaches are unrestricted: a joiner woken by a detach now returns ERROR.
+   Conclusion: every join/tryjoin that returned SUCCESS returned after the
+   target's result store and reported exactly the stored value. *)
+Theorem join_success_after_finish_with_value :
+  forall g progs x, ireach true g progs x ->
+    jwr (gh x) = false ->
     forall t v f, In (t, v, f) (gsucc (gh x)) -> f = Some v.
 Proof. intros g progs x R. exact (success_value_of_inv x (ireach_inv g progs x R)). Qed.
-Print Assumptions join_success_after_finish_with_value_partial.
+Print Assumptions join_success_after_finish_with_value.
 
 (* ---- join_at_most_one_success ---------------------------------------------
    FULL STATEMENT (false): at most one join/tryjoin returns SUCCESS
-     forall g progs x, ireach g progs x -> length (gsucc (gh x)) <= 1.
+     forall g progs x, ireach true g progs x -> length (gsucc (gh x)) <= 1.
    F-C04c (no detach anywhere): fiber 1 sleeps in fiber_join; the target
    finishes and exchanges WAIT_TO_JOIN -> WAIT_FOR_JOINER; fiber 2's tryjoin
    sees WAIT_FOR_JOINER, takes FIBER 1 out of join_info and returns SUCCESS / 7;
@@ -84,8 +87,8 @@ Print Assumptions join_success_after_finish_with_value_partial.
    clear_or_wait and is never reclaimed. *)
 Theorem join_two_successes_refuted :
   exists g progs sch,
-    let x := irun (iinit g progs) sch in
-    ireach g progs x /\
+    let x := irun (iinit true g progs) sch in
+    ireach true g progs x /\
     gsucc (gh x) = [(1%nat, 0, Some 7); (2%nat, 7, Some 7)] /\
     dwr (gh x) = false /\ jwr (gh x) = true /\
     spinning_cw x 0 = true /\ reclaims (base x) = 0.
@@ -94,12 +97,14 @@ Proof.
 Qed.
 Print Assumptions join_two_successes_refuted.
 
-(* PARTIAL (proved).  Successes are counted INCLUDING joins woken by a detach
-   (F-C04a): even so, at most one join/tryjoin returns SUCCESS in every run in
+(* PARTIAL (proved).  At most one join/tryjoin returns SUCCESS in every run in
    which no join/tryjoin exchange returned WAIT_FOR_JOINER while a joiner was
-   registered. *)
+   registered (F-C04c excluded; nothing else).  Since 4ff1f32 a join woken by a
+   detach returns ERROR and is not a success at all (ex_detach_woken_join_fails),
+   so together with join_success_after_finish_with_value: the unique success
+   carries the target's value. *)
 Theorem join_at_most_one_success_partial :
-  forall g progs x, ireach g progs x ->
+  forall g progs x, ireach true g progs x ->
     jwr (gh x) = false -> (length (gsucc (gh x)) <= 1)%nat.
 Proof. intros g progs x R. exact (one_success_of_inv x (ireach_inv g progs x R)). Qed.
 Print Assumptions join_at_most_one_success_partial.
@@ -110,7 +115,7 @@ Print Assumptions join_at_most_one_success_partial.
    such a detach the rendezvous slot is dead: join_info is NULL and nothing will
    ever be published in it. *)
 Theorem join_detached_fails :
-  forall g progs x, ireach g progs x ->
+  forall g progs x, ireach true g progs x ->
     bad_late (gh x) = false /\
     (gdet (gh x) = true ->
        ji_of (base x) = 0 /\ (mb (gh x) = MBNever \/ exists s u, mb (gh x) = MBTaken s u)).
@@ -128,7 +133,7 @@ Print Assumptions join_detached_fails.
    its stack is empty afterwards), its state is DONE, it had executed its result
    store, and it had been joined or detached. *)
 Theorem reclaim_once_after_finish_and_release :
-  forall g progs x, ireach g progs x ->
+  forall g progs x, ireach true g progs x ->
     reclaims (base x) = 0 \/
     (reclaims (base x) = 1 /\ stk (base x) tgt = [] /\ fstate (mem (base x)) tgt = ST_DONE /\
      gfin (gh x) <> None /\ released (gh x) = true).
@@ -138,7 +143,7 @@ Print Assumptions reclaim_once_after_finish_and_release.
 (* ---- no_touch_after_reclaim ---------------------------------------------------
    FULL STATEMENT (false, also in guarded mode, where every call on the handle
    STARTS while no join/tryjoin/detach has returned SUCCESS):
-     forall g progs x, ireach g progs x -> touched (gh x) = false.
+     forall g progs x, ireach true g progs x -> touched (gh x) = false.
    F-C04b, first witness (guarded): the target finished first and sleeps; fiber
    2's tryjoin has read WAIT_FOR_JOINER twice; fiber 1's join completes
    (SUCCESS / 7); the target wakes, becomes DONE and is freed; fiber 2's exchange
@@ -150,12 +155,12 @@ Print Assumptions reclaim_once_after_finish_and_release.
    false) in either. *)
 Theorem no_touch_after_reclaim_refuted :
   (exists progs sch,
-     let x := irun (iinit true progs) sch in
-     ireach true progs x /\ touched (gh x) = true /\ reclaims (base x) = 1 /\
+     let x := irun (iinit true true progs) sch in
+     ireach true true progs x /\ touched (gh x) = true /\ reclaims (base x) = 1 /\
      gsucc (gh x) = [(1%nat, 7, Some 7)] /\ dwr (gh x) = false /\ jwr (gh x) = false) /\
   (exists progs sch,
-     let x := irun (iinit true progs) sch in
-     ireach true progs x /\ touched (gh x) = true /\ reclaims (base x) = 1 /\
+     let x := irun (iinit true true progs) sch in
+     ireach true true progs x /\ touched (gh x) = true /\ reclaims (base x) = 1 /\
      spinning_cw x 2 = true /\ dwr (gh x) = false /\ jwr (gh x) = false).
 Proof.
   split.
@@ -180,7 +185,7 @@ Print Assumptions no_touch_after_reclaim_refuted.
    built; it is validated only by the lock-step monitor (tools/vf/props/C04.py,
    case family `single_client_long`: no touch after reclaim in any such run). *)
 Theorem no_touch_after_reclaim_partial :
-  forall g progs x, ireach g progs x -> reclaims (base x) <> 0 ->
+  forall g progs x, ireach true g progs x -> reclaims (base x) <> 0 ->
     stk (base x) tgt = [] /\
     forall u X, stk (base x) u <> [FStWrite tgt ST_READY; FC X].
 Proof. intros g progs x R. exact (reclaimed_quiet x (ireach_inv g progs x R)). Qed.
@@ -193,8 +198,8 @@ Print Assumptions no_touch_after_reclaim_partial.
    forever in clear_or_wait for a joiner that does not exist. *)
 Theorem join_detach_race_strands_target_refuted :
   exists g progs sch,
-    let x := irun (iinit g progs) sch in
-    ireach g progs x /\
+    let x := irun (iinit true g progs) sch in
+    ireach true g progs x /\
     jod (gh x) = true /\ gdet (gh x) = true /\ gsucc (gh x) = [] /\
     stack_empty x 1 = true /\ stack_empty x 2 = true /\       (* both callers have returned *)
     spinning_cw x 0 = true /\ mb (gh x) = MBNever /\          (* the target spins; the slot is dead *)
@@ -205,32 +210,56 @@ Proof.
 Qed.
 Print Assumptions join_detach_race_strands_target_refuted.
 
+(* ---- what is left of F-C04a after the repair (F-C04e) --------------------------
+   "a detached fiber that finishes is reclaimed" is false also when the detach
+   races with the finishing target for a sleeping joiner: fiber 1 sleeps in join;
+   the target finishes and exchanges WAIT_TO_JOIN -> WAIT_FOR_JOINER; fiber 2's
+   detach takes fiber 1 out of join_info (fiber 1's join returns ERROR) and
+   returns SUCCESS; the target spins forever in clear_or_wait. *)
+Theorem detach_steals_from_finishing_target_refuted :
+  exists g progs sch,
+    let x := irun (iinit true g progs) sch in
+    ireach true g progs x /\
+    gsucc (gh x) = [] /\ gdet (gh x) = true /\ stolen_d (gh x) = true /\ gfin (gh x) = Some 7 /\
+    stack_empty x 1 = true /\ stack_empty x 2 = true /\ spinning_cw x 0 = true /\ reclaims (base x) = 0.
+Proof.
+  exists true, wa_progs, we_sched. split; [apply ireach_irun; constructor|]. exact witness_e.
+Qed.
+Print Assumptions detach_steals_from_finishing_target_refuted.
+
 (* ---- non-vacuity ------------------------------------------------------------- *)
 (* a join that succeeds with the value, no detach, no second joiner *)
 Example ex_success_with_value :
-  let x := irun (iinit true [[JFinish 7]; [JJoin]]) (repeat 1%nat 10 ++ repeat 0%nat 30 ++ repeat 1%nat 10) in
-  ireach true [[JFinish 7]; [JJoin]] x /\ gsucc (gh x) = [(1%nat, 7, Some 7)] /\
+  let x := irun (iinit true true [[JFinish 7]; [JJoin]]) (repeat 1%nat 10 ++ repeat 0%nat 30 ++ repeat 1%nat 12) in
+  ireach true true [[JFinish 7]; [JJoin]] x /\ gsucc (gh x) = [(1%nat, 7, Some 7)] /\
   dwr (gh x) = false /\ jwr (gh x) = false /\ reclaims (base x) = 1 /\ touched (gh x) = false.
 Proof. split; [apply ireach_irun; constructor | vm_compute; repeat split]. Qed.
 
 (* a tryjoin polling until the target has finished *)
 Example ex_tryjoin_value :
   let progs := [[JFinish 9]; [JTry; JTry; JTry]] in
-  let x := irun (iinit true progs) (repeat 1%nat 5 ++ repeat 0%nat 12 ++ repeat 1%nat 20 ++ repeat 0%nat 12) in
-  ireach true progs x /\ gsucc (gh x) = [(1%nat, 9, Some 9)] /\ reclaims (base x) = 1.
+  let x := irun (iinit true true progs) (repeat 1%nat 5 ++ repeat 0%nat 12 ++ repeat 1%nat 20 ++ repeat 0%nat 12) in
+  ireach true true progs x /\ gsucc (gh x) = [(1%nat, 9, Some 9)] /\ reclaims (base x) = 1.
 Proof. split; [apply ireach_irun; constructor | vm_compute; repeat split]. Qed.
 
 (* a join begun after a completed detach: the hypothesis [late] is met, the call returns ERROR *)
 Example ex_late_join :
   let progs := [[JFinish 7]; [JJoin]; [JDetach]] in
-  let x := irun (iinit true progs) [1; 2; 2; 1]%nat in
-  ireach true progs x /\ gdet (gh x) = true /\ late (gh x) 1%nat = true /\
+  let x := irun (iinit true true progs) [1; 2; 2; 1]%nat in
+  ireach true true progs x /\ gdet (gh x) = true /\ late (gh x) 1%nat = true /\
   stack_empty x 1 = true /\ gsucc (gh x) = [].
 Proof. split; [apply ireach_irun; constructor | vm_compute; repeat split]. Qed.
 
 (* a detached target that finishes is reclaimed *)
 Example ex_detached_reclaimed :
   let progs := [[JFinish 7]; [JDetach]] in
-  let x := irun (iinit true progs) (repeat 1%nat 3 ++ repeat 0%nat 12) in
-  ireach true progs x /\ reclaims (base x) = 1 /\ released (gh x) = true /\ touched (gh x) = false.
+  let x := irun (iinit true true progs) (repeat 1%nat 3 ++ repeat 0%nat 12) in
+  ireach true true progs x /\ reclaims (base x) = 1 /\ released (gh x) = true /\ touched (gh x) = false.
+Proof. split; [apply ireach_irun; constructor | vm_compute; repeat split]. Qed.
+
+(* F-C04a's schedule on the current code: the join woken by the detach returns ERROR *)
+Example ex_detach_woken_join_fails :
+  let x := irun (iinit true true wa_progs) (repeat 1%nat 10 ++ repeat 2%nat 5 ++ repeat 1%nat 6) in
+  ireach true true wa_progs x /\ gsucc (gh x) = [] /\ stack_empty x 1 = true /\ gdet (gh x) = true /\
+  dwr (gh x) = true.
 Proof. split; [apply ireach_irun; constructor | vm_compute; repeat split]. Qed.
